@@ -121,10 +121,10 @@ type bfsStats struct {
 func bufferBFS(c *Ctx, name string, maxDepth int, maxStates int, onState func(s *buffer.Buffer, w *Worker), onTrans func(s *buffer.Buffer, op *bufOp, s2 *buffer.Buffer, w *Worker)) bfsStats {
 	ops := bufOps()
 	var st bfsStats
-	seen := map[string]struct{}{}
+	seen := map[uint64]struct{}{} // 64-bit hashes of the canonical keys (a collision can only lose coverage)
 	var zero buffer.Buffer
 	k0, _ := bufKey(&zero)
-	seen[k0] = struct{}{}
+	seen[hashString(k0)] = struct{}{}
 	frontier := []buffer.Buffer{zero}
 	st.States = 1
 	for depth := 0; len(frontier) > 0; depth++ {
@@ -136,7 +136,7 @@ func bufferBFS(c *Ctx, name string, maxDepth int, maxStates int, onState func(s 
 		st.Depth = depth + 1
 		var mu sync.Mutex
 		var next []buffer.Buffer
-		var nextKeys []string
+		var nextKeys []uint64
 		cur := frontier
 		sec := c.Section(fmt.Sprintf("%s/level%d", name, depth), map[string]interface{}{"frontier_states": len(cur), "ops": len(ops)}, len(cur), func(i int, w *Worker) {
 			s := &cur[i]
@@ -145,7 +145,7 @@ func bufferBFS(c *Ctx, name string, maxDepth int, maxStates int, onState func(s 
 			}
 			mode := s.GetMode()
 			var loc []buffer.Buffer
-			var lk []string
+			var lk []uint64
 			for oi := range ops {
 				op := &ops[oi]
 				if op.Kind == 'w' && op.Raw != (mode == buffer.SafeRaw) {
@@ -168,7 +168,7 @@ func bufferBFS(c *Ctx, name string, maxDepth int, maxStates int, onState func(s 
 					continue
 				}
 				loc = append(loc, s2)
-				lk = append(lk, k)
+				lk = append(lk, hashString(k))
 			}
 			mu.Lock()
 			next = append(next, loc...)
